@@ -471,7 +471,9 @@ pub fn cases_of(m: &MethodDesc, thorough: bool) -> Vec<Case> {
     let d = &IFACES[m.iface];
     let mut out = vec![];
     let mut add = |kind: &'static str, call: CallSpec| {
-        for flags in [0u8, F_NO_REPLY] {
+        // the no-reply flag alone and together with the other defined flags (0x2 NoAutoStart,
+        // 0x4 AllowInteractiveAuth), which must not change dispatch
+        for flags in [0u8, F_NO_REPLY, F_NO_REPLY | 0x2, 0x2 | 0x4, F_NO_REPLY | 0x2 | 0x4] {
             let mut c = call.clone();
             c.flags = flags;
             out.push(Case { method: m.id, kind, call: c });
@@ -671,7 +673,7 @@ pub fn main(args: &Args) -> i32 {
     report.assume("NoReplyExpected: at most one reply, none on the success path (the specification lets a server answer errors)");
     report.assume("a call without INTERFACE header may be dispatched or refused, but a refusal must use a standard error");
     report.finish(
-        "every bank method x every call kind x NoReplyExpected off/on; correct calls with the full product of the leaf domains, negative kinds with the first two values of each argument domain (quick) or the full product (thorough); non-trivial = distinct (method, kind, message bytes after the serial)",
+        "every bank method x every call kind x flags {none, NoReplyExpected, NoReplyExpected|NoAutoStart, NoAutoStart|AllowInteractiveAuth, all three}; correct calls with the full product of the leaf domains, negative kinds with the first two values of each argument domain (quick) or the full product (thorough); non-trivial = distinct (method, kind, message bytes after the serial)",
         true,
     )
 }
